@@ -17,5 +17,5 @@ def run(ctx):
     state.r_determ(ctx)
     c06.r_nomut(ctx, operands_only=True)   # null_point / null_expression are shared by every model: no operator (in-place ones included) writes to an operand
     state.r_memo(ctx, exits=False)  # module-level null objects (derived points / expressions) keep no value from an earlier model
-    ctx.floor("class-level state cells", n, 11)
-    ctx.floor("verbosity guards", v, 44)
+    ctx.floor("class-level state cells", n, 8)
+    ctx.floor("verbosity guards", v, 20)
